@@ -1095,7 +1095,8 @@ func (c *DefaultCtx) Params(key string, defaultValue ...string) string {
 			if len(c.values) <= i || len(c.values[i]) == 0 {
 				break
 			}
-			return c.values[i]
+			// values are substrings of the reused c.path buffer
+			return c.app.getString(utils.UnsafeBytes(c.values[i]))
 		}
 	}
 	return defaultString("", defaultValue)
